@@ -175,3 +175,57 @@ Fixpoint lists_upto (n : nat) (suffix : list ytoken) : list (list ytoken) :=
             | O => nil
             | S n' => flat_map (fun y => lists_upto n' (y :: suffix)) alphabet
             end.
+
+(* ------------------------------------------------------------------ the whole pipeline as generated *)
+(* tokenizer.l as the parser sees it: the token NAME flex returns together with the payload.  Same scan
+   as [InlineModel.lex_fuel]; a number is RATIONAL when rule 1 ([0-9]+(\/[0-9]+)?) wins (digits, or
+   digits '/' digits; ties go to the first rule) and FLOATING_POINT when rule 2 matches longer. *)
+Definition number_name (s : list Ascii.ascii) : string :=
+  let (_, r) := span_digits s in
+  match r with
+  | c :: r1 =>
+    if (Ascii.nat_of_ascii c =? 47)%nat then "RATIONAL"
+    else if (Ascii.nat_of_ascii c =? 46)%nat then "FLOATING_POINT"
+    else match lex_exp r with Some _ => "FLOATING_POINT" | None => "RATIONAL" end
+  | nil => "RATIONAL"
+  end.
+Fixpoint ylex_fuel (fuel : nat) (s : list Ascii.ascii) : option (list ytoken) :=
+  match fuel with
+  | O => None
+  | S f =>
+    match s with
+    | nil => Some nil
+    | c :: r =>
+      let n := Ascii.nat_of_ascii c in
+      let cons t := match ylex_fuel f r with Some ts => Some (t :: ts) | None => None end in
+      if is_digit c then
+        match lex_number s with
+        | Some (t, r') => match ylex_fuel f r' with Some ts => Some ((number_name s, t) :: ts) | None => None end
+        | None => None
+        end
+      else if (n =? 120)%nat then cons ("MONOMIAL", TX)
+      else if (n =? 43)%nat then cons ("PLUS", TPlus)
+      else if (n =? 45)%nat then cons ("MINUS", TMinus)
+      else if (n =? 105)%nat then cons ("IMAGINARY_UNIT", TI)
+      else if (n =? 40)%nat then cons ("LEFT_BRACKET", TLP)
+      else if (n =? 41)%nat then cons ("RIGHT_BRACKET", TRP)
+      else if (n =? 42)%nat then cons ("TIMES", TTimes)
+      else if (n =? 94)%nat then cons ("SUPERSCRIPT", TPow)
+      else if (n =? 32)%nat || (n =? 9)%nat then ylex_fuel f r
+      else None
+    end
+  end.
+Definition ylex (s : string) : option (list ytoken) :=
+  let l := list_ascii_of_string s in ylex_fuel (S (length l)) l.
+
+(* mps_parse_inline_poly_from_string as generated: flex tokens -> bison's table-driven parser with the
+   semantic actions -> the coefficient vector of the mps::formal::Polynomial left in data->p
+   (createMonomialPoly copies it out).  None = an error was raised. *)
+Definition run_yacc (a : automaton) (s : string) : option (list C) :=
+  match ylex s with
+  | None => None
+  | Some ys => match lr_run a ys with
+               | LAccept e => Some (fp_coeffs (fp_denote e))
+               | _ => None
+               end
+  end.
